@@ -25,6 +25,12 @@ while n < N or (G.all_rule_keys() - G.used and n < N + 400):
     n += 1
     toks, lits = G.sentence(depth=rng.choice([2, 3, 4, 6, 8]))
     src = profilegen.render(toks, rng)
+    if n % 7 == 3:
+        # the whole profile indented (as when it is embedded in other text): the margin is layout between tokens but DATA inside a
+        # literal that spans lines, so the expected tokens are those of the indented source
+        margin = rng.choice(["    ", "\t", "  "])
+        src = "\n".join(margin + ln for ln in src.split("\n"))
+        toks = profilegen.tokenize(src)
     witness = {"source": src[:1500]}
     try:
         with time_limit(20):
